@@ -345,6 +345,22 @@ def programs() -> dict:
     return progs
 
 
+# the translated bodies as functions, bottom-up along the call graph reset -> power_off -> power_on -> actions (constant text)
+RUNNERS = """
+/-! the translated bodies as functions, callees bound to the translated callees -/
+def genStart (n : Node) : Node := (runBody {} startUpActionsProg n).1
+def genShut (n : Node) : Node := (runBody {} shutDownActionsProg n).1
+def genOn (n : Node) : Node × Option Bool := runBody { start := genStart, shut := genShut } powerOnProg n
+def genOnB (n : Node) : Node × Bool := ((genOn n).1, (genOn n).2.getD false)
+def genOff (n : Node) : Node × Option Bool := runBody { start := genStart, shut := genShut, on := genOnB } powerOffProg n
+def genOffB (n : Node) : Node × Bool := ((genOff n).1, (genOff n).2.getD false)
+def genReset (n : Node) : Node × Option Bool :=
+  runBody { start := genStart, shut := genShut, on := genOnB, off := genOffB } resetProg n
+def genTickPower (n : Node) : Node × Option Bool :=
+  runBody { start := genStart, shut := genShut, on := genOnB, off := genOffB } tickPowerProg n
+"""
+
+
 def emit() -> str:
     progs = programs()
     lines = ["import PrimaiteModel.Model.PowerProg", "namespace Primaite.Gen.PowerProg", "open Primaite.Power", ""]
@@ -354,6 +370,7 @@ def emit() -> str:
     for k, v in progs.items():
         lines.append(f"/-- `{doc[k]}`, translated statement by statement -/")
         lines.append(f"def {k} : PStmt :=\n  {v}")
+    lines.append(RUNNERS)
     lines.append("end Primaite.Gen.PowerProg")
     return "\n".join(lines) + "\n"
 
